@@ -91,6 +91,7 @@ type c15Prop struct {
 	done      bool
 	outcome   string
 	execFails bool // messages are built to fail on execution
+	expedited bool // submitted as expedited and not yet converted to a regular proposal
 }
 
 type c15Run struct {
@@ -106,6 +107,7 @@ type c15Run struct {
 	custom     map[string]*fxgovtypes.CustomParams // model of per-type params
 	outcomes   map[string]int
 	tok        *fix.WToken
+	expOK      bool // governance has set the expedited minimum deposit in FX: expedited proposals can be made
 }
 
 func (r *c15Run) logf(f string, a ...interface{}) {
@@ -182,6 +184,16 @@ func (r *c15Run) setup() bool {
 	}
 	r.tok = tok
 	_ = c.App.DistrKeeper.FundCommunityPool(c.Ctx, sdk.NewCoins(chain.FXCoin(5_000_000)), c.Users[4].Acc())
+	if r.spec.Mode == "history" && r.spec.Seed%2 == 1 {
+		// the genesis expedited minimum deposit is in a denomination deposits cannot use: governance sets one in FX
+		gp := r.govParams()
+		gp.ExpeditedMinDeposit = sdk.NewCoins(chain.FXCoin(20_000))
+		if res := c.Msg(&govv1.MsgUpdateParams{Authority: chain.GovAuthority(), Params: gp}); !res.OK() {
+			r.res.Inconclusive = "gov params: " + res.ErrString()
+			return false
+		}
+		r.expOK = true
+	}
 	// model of the genesis custom parameters
 	for _, ip := range fxgovtypes.DefaultInitGenesisCustomParams() {
 		p := ip.Params
@@ -246,10 +258,14 @@ func (r *c15Run) govParams() govv1.Params {
 }
 
 // applicable minimum deposit / period / quorum by the independent reading of the rules
-func (r *c15Run) rules(url string, requested sdkmath.Int) (sdkmath.Int, time.Duration, sdkmath.LegacyDec) {
+func (r *c15Run) rules(url string, requested sdkmath.Int, expedited bool) (sdkmath.Int, time.Duration, sdkmath.LegacyDec) {
 	gp := r.govParams()
 	min := sdk.Coins(gp.MinDeposit).AmountOf(fxtypes.DefaultDenom)
 	period := *gp.VotingPeriod
+	if expedited {
+		min = sdk.Coins(gp.ExpeditedMinDeposit).AmountOf(fxtypes.DefaultDenom)
+		period = *gp.ExpeditedVotingPeriod
+	}
 	quorum := sdkmath.LegacyMustNewDecFromStr(gp.Quorum)
 	if cp, ok := r.custom[url]; ok {
 		period = *cp.VotingPeriod
@@ -275,14 +291,21 @@ func (r *c15Run) submit(class string, fail bool) {
 	if r.rng.IntN(6) == 0 {
 		init = chain.FX(int64(9000 + r.rng.IntN(3000)))
 	}
-	min, period, quorum := r.rules(url, req)
-	id, res := fix.Propose(c, proposer, msgs, sdk.NewCoins(sdk.NewCoin(fxtypes.DefaultDenom, init)), class)
-	r.logf("submit %s (fail=%v, requested %s) deposit %s by %s -> id=%d %s", class, fail, req, init, proposer.Label, id, short(res.ErrString()))
+	exp := r.expOK && r.rng.IntN(3) == 0
+	if exp && r.rng.IntN(3) == 0 {
+		init = chain.FX(int64(19_000 + r.rng.IntN(2000)))
+	}
+	min, period, quorum := r.rules(url, req, exp)
+	id, res := fix.ProposeExpedited(c, proposer, msgs, sdk.NewCoins(sdk.NewCoin(fxtypes.DefaultDenom, init)), class, exp)
+	r.logf("submit %s (fail=%v, requested %s, expedited=%v) deposit %s by %s -> id=%d %s", class, fail, req, exp, init, proposer.Label, id, short(res.ErrString()))
 	if !res.OK() {
 		return
 	}
 	p := &c15Prop{id: id, class: class, url: url, msgs: msgs, deposits: map[string]sdkmath.Int{proposer.Bech32(): init}, total: init, minDep: min, submitAt: c.Time,
-		period: period, quorum: quorum, votes: map[string]govv1.VoteOption{}, execFails: fail}
+		period: period, quorum: quorum, votes: map[string]govv1.VoteOption{}, execFails: fail, expedited: exp}
+	if exp {
+		r.res.Count("expedited_proposals", 1)
+	}
 	r.props[id] = p
 	if class == "egf" {
 		r.res.Count("egf_ratio_checks", 1)
@@ -428,6 +451,9 @@ func (r *c15Run) expectedTally(p *c15Prop) (passes bool, burn bool, participatio
 		return false, gp.BurnVoteVeto, participation
 	}
 	thr := sdkmath.LegacyMustNewDecFromStr(gp.Threshold)
+	if p.expedited {
+		thr = sdkmath.LegacyMustNewDecFromStr(gp.ExpeditedThreshold)
+	}
 	if sdkmath.LegacyNewDecFromInt(power[govv1.OptionYes]).Quo(sdkmath.LegacyNewDecFromInt(nonAbstain)).GT(thr) {
 		return true, false, participation
 	}
@@ -474,6 +500,23 @@ func (r *c15Run) block(dt time.Duration) bool {
 	egfPaid := sdkmath.ZeroInt()
 	for _, d := range dues {
 		p := d.p
+		if !d.dep && p.expedited && !d.passes {
+			// an expedited proposal that does not pass becomes a regular one: it stays open until the regular
+			// voting period (counted from the start of voting) ends, its deposits stay where they are and
+			// the votes cast so far are gone
+			p.expedited = false
+			p.votEnd = p.votStart.Add(*gp.VotingPeriod)
+			p.votes = map[string]govv1.VoteOption{}
+			r.res.Count("expedited_conversions", 1)
+			sp, ok := fix.Proposal(c, p.id)
+			if !ok || sp.Status != govv1.StatusVotingPeriod || sp.Expedited || sp.VotingEndTime == nil || !sp.VotingEndTime.Equal(p.votEnd) {
+				r.res.Violate("C15/expedited-conversion", "expedited proposal %d (%s) did not pass (participation %s): expected a regular proposal voting until %v, stored %v expedited=%v until %v", p.id, p.class, d.part, p.votEnd, sp.Status, sp.Expedited, sp.VotingEndTime)
+			}
+			continue
+		}
+		if !d.dep && p.expedited {
+			r.res.Count("expedited_passed", 1)
+		}
 		p.done = true
 		r.res.Count("proposals_ended", 1)
 		sp, ok := fix.Proposal(c, p.id)
